@@ -108,8 +108,47 @@ def walk_desc(n, pos=()):
             yield from walk_desc(c, pos + (("sub", name),))
 
 
+ALNUM = "abcdefghijklmnopqrstuvwxyzABCDEFGHJKLMNPQRSTUVWXYZ0123456789"
+LONG_LENGTHS = [32, 33, 40, 64, 65, 100, 200]      # UTF-8 lengths around and beyond the 32-byte key / 16-byte block
+
+
 def plaintext(rng, k=0):
-    return "".join(rng.choice("abcdefghijklmnopqrstuvwxyzABCDEFGHJKLMNPQRSTUVWXYZ0123456789") for _ in range(rng.randint(6, 12)))
+    """mostly 6..12 characters; about a third are long: UTF-8 length exactly 32, 64, 65 or 33..200 (a cipher
+    that only covers the first key length / block would leave the tail readable); sometimes non-ASCII"""
+    r = rng.random()
+    if r < 0.65:
+        return "".join(rng.choice(ALNUM) for _ in range(rng.randint(6, 12)))
+    n = rng.choice(LONG_LENGTHS) if r < 0.9 else rng.randint(33, 200)
+    if rng.random() < 0.15:
+        # two-byte code points in front, ASCII fill: the UTF-8 length is n
+        k2 = rng.randint(1, 4)
+        return "".join(rng.choice("\u00e9\u00fc\u03bb\u0416") for _ in range(k2)) + \
+               "".join(rng.choice(ALNUM) for _ in range(n - 2 * k2))
+    return "".join(rng.choice(ALNUM) for _ in range(n))
+
+
+def windows(pb, w):
+    """every window of w bytes of the plaintext (head, middle, tail); the whole text when it is shorter"""
+    if len(pb) <= w:
+        return [pb]
+    return [pb[i:i + w] for i in range(len(pb) - w + 1)]
+
+
+def _ciphertexts(tree, acc):
+    """base64-decoded ciphertext of every {method, ciphertext} value of a document"""
+    if isinstance(tree, dict):
+        ct = tree.get("ciphertext")
+        if isinstance(ct, str) and "method" in tree:
+            try:
+                acc.append(base64.b64decode(ct))
+            except Exception:  # noqa
+                pass
+        for v in tree.values():
+            _ciphertexts(v, acc)
+    elif isinstance(tree, (list, tuple)):
+        for v in tree:
+            _ciphertexts(v, acc)
+    return acc
 
 
 # ---- simulation of the tree shape (which list has how many items), for generating valid positions
@@ -283,6 +322,24 @@ def generate(rng, tier):
                     ops.append(("dump", fmt))
                     cases.append(mk_case(desc, existing, ops, 6 if where in ("root", "both") else None, fmt,
                                          "matrix:tilde-%s:%s" % (sname, where)))
+    # ---- long plaintexts: UTF-8 length exactly 32, 33, 40, 64, 65, 100, 200 at the root, nested, in a list item
+    #      and as items of a list of secrets, every method, ASCII and with two-byte code points
+    for mi, m in enumerate(METHODS):
+        desc = node([("pw", m)], [("sub", "sub", node([("pw", m)], cont=[("keys", "slist", m)])),
+                                  ("items", "list", node([("tok", m)]))])
+        for n in LONG_LENGTHS:
+            for nonascii in (False, True):
+                fmt = FORMATS[k % 5]
+                k += 1
+
+                def text():
+                    if nonascii:
+                        return "\u00e9\u03bb" + "".join(det.choice(ALNUM) for _ in range(n - 4))
+                    return "".join(det.choice(ALNUM) for _ in range(n))
+                ops = [("kf", (), 1), ("items", (), "items", 1, k % 3), ("sec", (), "pw", text()),
+                       ("sec", (("sub", "sub"),), "pw", text()), ("seclist", (("sub", "sub"),), "keys", [text(), text()]),
+                       ("sec", (("item", "items", 0),), "tok", text())]
+                cases.append(mk_case(desc, [1] if k % 2 else [], ops, 1, fmt, "matrix:long:%d" % n))
     # ---- two configurations of one schema, Config objects moved from the first into the second
     for mi, m in enumerate(METHODS):
         desc = node([("pw", m)], [("sub", "sub", node([("pw", m)], [("in2", "sub", node([("pw", m)]))])),
@@ -886,7 +943,24 @@ def impl(c):
                         st["expected_dump"].add(os.path.expanduser(want))
                         st["plaintexts"].append(v)
             st["touched_dump"] = {p for p, _ in ev_dump}
-            st["leaks"] = [v for v in st["plaintexts"] if v.encode() in out]
+            # plaintext absence: every 8-byte window (head, middle, tail) in the output bytes, every 6-byte window
+            # in the base64-DECODED ciphertexts of the document that was written (parsed back by the formatter)
+            # and of a second rendering
+            cts = []
+            try:
+                from cincoconfig.core import ConfigFormat
+                _ciphertexts(ConfigFormat.get(c["fmt"]).loads(root, out), cts)
+            except Exception:  # noqa
+                pass
+            _ciphertexts(root.to_tree(), cts)
+            st["n_ciphertexts"] = len(cts)
+            st["leaks"] = []
+            for v in st["plaintexts"]:
+                pb = v.encode()
+                if any(w in out for w in windows(pb, 8)):
+                    st["leaks"].append(("output", len(pb)))
+                elif any(w in ct for ct in cts for w in windows(pb, 6)):
+                    st["leaks"].append(("ciphertext", len(pb)))
             # F34 region, from the real objects
             f34 = False
             for cfg, n, chain in nodes[1:]:
@@ -998,7 +1072,9 @@ def oracle(c, obs):
     if st.get("rewritten"):
         bad.append("an existing key file was rewritten / removed by dump or load: %s" % st["rewritten"])
     if st["leaks"]:
-        bad.append("plaintext of a secret present in the serialised output")
+        where, n = st["leaks"][0]
+        bad.append("plaintext of a secret (%d bytes) present in the serialised output: a window of it is readable in the %s" % (
+            n, "output bytes" if where == "output" else "base64-decoded ciphertext"))
     if any(m not in ("aes", "xor") for m in st["methods"]):
         bad.append("recorded encryption method is not concrete: %r" % (st["methods"],))
     if st["bad_items"]:
@@ -1049,6 +1125,11 @@ def tags(c, obs):
     if any((op[1] if op[0] == "A" else op)[0] == "kf" and (op[1] if op[0] == "A" else op)[2] in TILDE for op in c["ops"]) or \
             any(n["ct"] in TILDE for _, n in descs):
         t.add("tilde-keyfile")
+    for v in st.get("plaintexts", ()):
+        n = len(v.encode())
+        t.add("plaintext-len:" + ("6-31" if n < 32 else "32" if n == 32 else "33-63" if n < 64 else "64-65" if n <= 65 else "66-200"))
+        if n != len(v):
+            t.add("plaintext-non-ascii")
     seen_dump = False
     for op in c["ops"]:
         if op[0] == "dump":
